@@ -50,6 +50,7 @@ let aclass_name = function
   | AServerRejectsUploader -> "server-rejects-uploader" | AXZero -> "x-zero"
   | AServerAcceptsOutside -> "server-accepts-outside" | AServerRejectsWithin -> "server-rejects-within"
   | AViewerSet -> "viewer-set" | AViewerCounter -> "viewer-counter" | AViewerUploader -> "viewer-uploader"
+  | AViewerReportFalse -> "viewer-report-false-claim" | AViewerReportStackOmitted -> "viewer-report-stack-omitted"
 
 let summary_name = function
   | SProgram -> "program" | SOsArch -> "osarch" | SGoVersion -> "goversion" | SVersion -> "version"
@@ -130,7 +131,34 @@ let handle kind c =
          | Some s ->
            List.iter (fun cl -> prop (aclass_name cl) (who ^ " summary=" ^ cls ^ " [" ^ show_names names ^ "]"))
              (List.sort_uniq Stdlib.compare (viewer_check u f s meta active up0))))
-      files
+      files;
+    (* the viewer on the week's reports (reports(dir, cfg)) *)
+    let nrv = next_int c in
+    for _ = 1 to nrv do
+      let tag = next c in
+      let r = next_report c in
+      List.iter (fun p ->
+          let cls = next c in
+          let names = List.sort Stdlib.compare (List.map string_of_bytes (next_strs c)) in
+          let (i, _) = p in
+          let who = tag ^ "-report program<" ^ esc i.id_program ^ ">" in
+          let ms = viewer_report_summary cfg p in
+          if summary_name ms <> cls then diff "report-view-summary" ~model:(summary_name ms) ~impl:cls
+          else (match ms with
+              | SCounters l -> check_eq "report-view-names" show_names (sort_names l) names
+              | _ -> ());
+          let isummary = (match cls with
+              | "program" -> Some SProgram | "osarch" -> Some SOsArch | "goversion" -> Some SGoVersion
+              | "version" -> Some SVersion | "clean" -> Some SClean
+              | "counters" -> Some (SCounters (List.map bytes_of_string names))
+              | _ -> None) in
+          (match isummary with
+           | None -> diff "report-view-summary-text" ~model:"one of the fixed phrases" ~impl:cls
+           | Some s ->
+             List.iter (fun cl -> prop (aclass_name cl) (who ^ " summary=" ^ cls ^ " [" ^ show_names names ^ "]"))
+               (List.sort_uniq Stdlib.compare (viewer_report_check u p s))))
+        r.r_programs
+    done
   | k -> diff "unknown-case-kind" ~model:k ~impl:"-"
 
 let () = run_file Sys.argv.(1) handle
